@@ -525,7 +525,8 @@ def r24_25(ctx):
             idx = n.value.slice.id
             defs = [d for d in fl.defs if d.path == idx and d.kind == "assign" and d.value is not None]
             if defs and any("argsort" in ast.unparse(d.value) or "append" in ast.unparse(d.value) or "concatenate" in ast.unparse(d.value) for d in defs):
-                sort_assign = (n, idx, n.targets[0].id)
+                if sort_assign is None:
+                    sort_assign = (n, idx, n.targets[0].id)
     if sort_assign is None:
         raise AnalysisError("R-2.4: the row sort `sorted = non_locked[sort_idx]` was not found")
     sn, idx, sorted_name = sort_assign
@@ -710,6 +711,76 @@ def r26(ctx):
             ctx.bad(rid, resc[0], "permanent_prob rescales the matrix it was given in place (a window of the sorted state): the weights of the state are altered", construct="in-place rescaling of the argument")
 
 
+def r27(ctx):
+    """quick_prob uses its argument only through the zero pattern and the shape: the fast path is
+    invariant under any rescaling of a path's weights and is zero wherever the weight is zero."""
+    rid = "R-2.7"
+    tree = ctx.tree
+    f = tree.func(REPEX, "REPEX_state.quick_prob")
+    ps = [a.arg for a in f.args.args]
+    if len(ps) < 2:
+        raise AnalysisError("R-2.7: quick_prob(self, arr) expected")
+    arr = ps[1]
+    fl = flow_of(f)
+    uses = [n for n in walk_local(f) if isinstance(n, ast.Name) and n.id == arr and isinstance(n.ctx, ast.Load)]
+    pattern_names = set()
+    n_ok = 0
+    for u in uses:
+        par = getattr(u, "_parent", None)
+        if isinstance(par, ast.Attribute) and par.attr in ("shape", "ndim", "dtype"):
+            n_ok += 1
+            continue
+        if isinstance(par, ast.Call) and last_name(par) in ("len",):
+            n_ok += 1
+            continue
+        if isinstance(par, ast.Compare) and len(par.ops) == 1 and isinstance(par.ops[0], (ast.NotEq, ast.Eq, ast.Gt)) and any(isinstance(x, ast.Constant) and x.value == 0 for x in [par.left] + par.comparators):
+            n_ok += 1
+            st = par
+            while st is not None and not isinstance(st, ast.stmt):
+                st = getattr(st, "_parent", None)
+            if isinstance(st, ast.Assign):
+                pattern_names |= {t.id for t in st.targets if isinstance(t, ast.Name)}
+            continue
+        ctx.bad(rid, u, f"quick_prob uses the weights themselves in `{short(par, 50)}`, not only their zero pattern: the fast path is no longer unchanged when a path's weights are rescaled", construct=short(par, 50))
+    if n_ok and len(uses) == n_ok:
+        ctx.ok(rid, f, f"quick_prob reads its argument {n_ok} times: shape and zero pattern only")
+    # the zero pattern multiplies every entry that is written
+    stores = [s_ for s_ in walk_local(f) if isinstance(s_, ast.Assign) and any(isinstance(t, ast.Subscript) for t in s_.targets)]
+    for s_ in stores:
+        tgt = next(t for t in s_.targets if isinstance(t, ast.Subscript))
+        if not isinstance(tgt.value, ast.Name):
+            continue
+        rets = [r for r in walk_local(f) if isinstance(r, ast.Return) and isinstance(r.value, ast.Name)]
+        if not rets or tgt.value.id != rets[0].value.id:
+            continue
+        # names derived from the zero pattern (flow-insensitive closure)
+        derived = set(pattern_names)
+        changed = True
+        while changed:
+            changed = False
+            for n_ in walk_local(f):
+                tg, src = [], None
+                if isinstance(n_, ast.Assign):
+                    tg, src = [t for t in n_.targets if isinstance(t, ast.Name)], n_.value
+                elif isinstance(n_, ast.For):
+                    tg = [x for x in ast.walk(n_.target) if isinstance(x, ast.Name)]
+                    src = n_.iter
+                if src is not None and any(isinstance(x, ast.Name) and x.id in derived for x in ast.walk(src)):
+                    for t in tg:
+                        if t.id not in derived:
+                            derived.add(t.id)
+                            changed = True
+        v_, _ = deref(fl, s_.value, fl.cfg.node_of(s_))
+        defs_ = [v_]
+        if isinstance(s_.value, ast.Name):
+            defs_ = [d.value for d in fl.defs if d.path == s_.value.id and d.kind == "assign" and d.value is not None] or [v_]
+        factor = all(isinstance(d_, ast.BinOp) and isinstance(d_.op, ast.Mult) and any(isinstance(o_, ast.Name) and o_.id in derived - {s_.value.id if isinstance(s_.value, ast.Name) else ""} for o_ in (d_.left, d_.right)) for d_ in defs_)
+        if factor:
+            ctx.ok(rid, s_, "every column written to the result carries the zero pattern as a factor: P is zero wherever the weight is zero")
+        else:
+            ctx.bad(rid, s_, "a column of the fast-path result does not depend on the zero pattern of the weights: entries with zero weight can get a probability", construct=short(s_, 60))
+
+
 def run(ctx):
     ctx.rule("R-2.1", "cache coherence of the memoised P matrix: typestate NONE/OK/STALE over every method of REPEX_state with callee summaries; no stale read, no stale exit of an externally called method; only the getter stores a matrix", floor=20)
     ctx.rule("R-2.2", "the getter computes P from the live weight matrix and busy flags and memoises that result", floor=2)
@@ -722,6 +793,8 @@ def run(ctx):
     ctx.attempt(r23, ctx)
     ctx.attempt(r24_25, ctx)
     ctx.attempt(r26, ctx)
+    ctx.rule("R-2.7", "quick_prob touches its argument only through shape and zero pattern (scale invariance of the fast path; zero where the weight is zero)", floor=2)
+    ctx.attempt(r27, ctx)
 
 
 VARIANTS = [
@@ -754,5 +827,7 @@ VARIANTS = [
     B("c02-entry-weighted-transposed", REPEX, "                out[i][j] = f * scaled_arr[i][j]", "                out[i][j] = f * scaled_arr[j][i]", "R-2.6"),
     B("c02-rescale-by-global-maximum", REPEX, "            scaled_arr[i, :] /= np.max(scaled_arr[i, :])", "            scaled_arr[i, :] /= np.max(scaled_arr)", "R-2.6"),
     B("c02-rescale-in-place", REPEX, "        scaled_arr = arr.copy()", "        scaled_arr = arr", "R-2.6"),
+    B("c02-fast-path-uses-weights", REPEX, "        working_mat = np.where(arr != 0, 1, 0)  # convert non-zero numbers to 1", "        working_mat = np.where(arr != 0, arr, 0)", "R-2.7", control=True),
+    B("c02-fast-path-column-without-pattern", REPEX, "            out_mat[:, -(i + 1)] = ens\n", "            out_mat[:, -(i + 1)] = total_traj_prob / max(total_traj_prob.sum(), 1)\n", "R-2.7"),
     K("c02-keep-tuple-index-store", REPEX, "                out[i][j] = f * scaled_arr[i][j]", "                out[i, j] = f * scaled_arr[i, j]"),
 ]
